@@ -38,8 +38,8 @@ def _generic_rules():
 
 def translate(toks, rules, log, what="", generic=True):
     if generic:
-        from .rules import normalize_chains
-        toks = normalize_chains(toks, log)
+        from .rules import normalize_chains, option_idioms
+        toks = option_idioms(normalize_chains(toks, log), log)
     for r in list(rules) + (_generic_rules() if generic else []):
         try:
             toks = r.apply(toks, log)
